@@ -2,5 +2,5 @@ package main
 
 func init() {
 	reg("C02", propCfg{Pkg: "./props/c02", Rule: "generated non-terminating/blocked programs x cancellation instants; oracle = bounded return with the interruption error and no host call afterwards",
-		Assumptions: assume("'within a short bounded time' is tested as 'within 3 s of the cancellation' (typical: microseconds)", "host functions used by the generated programs never block: time inside one host call is outside the property", "in asynchronous mode at most two tick() calls may already be in flight when the cancellation becomes visible")})
+		Assumptions: assume("'within a short bounded time' is tested as 'within 3 s of the cancellation' (typical: microseconds)", "host functions used by the generated programs never block: time inside one host call is outside the property (the pacing call of the racing cores keeps its goroutine busy for at most 10 microseconds)", "in asynchronous mode at most two tick() calls may already be in flight when the cancellation becomes visible", "a Go panic of a host function started with a go statement is captured by the go statement (Options.Debug is off), as the package documents; such go statements are part of the generated programs")})
 }
